@@ -937,7 +937,9 @@ class TestClientRecorder(BaseOperationRecorder):
                             http_response.headers[hdr_name]
             tc_http_response['headers'] = tc_response_headers
             if http_response.payload is not None:
-                data = http_response.payload.decode('utf-8')
+                # The response may be ill-formed UTF-8; recording it must not
+                # replace the exception the operation raises for it.
+                data = http_response.payload.decode('utf-8', errors='replace')
                 data = data.replace('><', '>\n<').strip()
             else:
                 data = None
